@@ -582,7 +582,7 @@ func (l *Line) IPArray(name string, value []net.IP) *Line {
 	}
 
 	for _, v := range value {
-		if l.index+28+2 > cap(l.buffer) { // assume longest IP len 4*8+4
+		if l.index+39+2+1 > cap(l.buffer) { // longest IP6 text is 8*4+7 = 39, plus separator and closing bracket
 			break
 		}
 		if v != nil {
